@@ -22,7 +22,7 @@ fn dec(t: &[String]) -> Option<C> {
     Some(C { h, qs })
 }
 fn valid(c: &C) -> bool {
-    c.qs.iter().all(|q| q.0 < q.1) && c.qs.windows(2).all(|w| w[0].0 <= w[1].0)
+    c.qs.windows(2).all(|w| w[0].0 <= w[1].0)
         && c.h.all_intervals().iter().all(|x| x.0 <= x.1)
 }
 
@@ -65,8 +65,10 @@ fn asc_queries(rng: &mut Rng, pts: &[u64], n: usize, far: u64) -> Vec<(u64, u64)
     let mut qs = vec![];
     for s in starts {
         let e = match rng.below(4) { 0 => s.saturating_add(1), 1 => s.saturating_add(rng.range(1, 40)), 2 => s.saturating_add(rng.range(1, 5000)), _ => { let p = *rng.pick(pts); if p > s { p } else { s.saturating_add(1) } } };
-        if s < e { qs.push((s, e)); }
-        if rng.chance(1, 6) && s < e { qs.push((s, e)); } // repeat
+        // "arbitrary stops": one query in eight is empty or backward (stop <= start) — find and seek must still agree
+        let e = if rng.chance(1, 8) { if rng.chance(1, 2) { s } else { let p = *rng.pick(pts); p.min(s) } } else { e };
+        qs.push((s, e));
+        if rng.chance(1, 6) { qs.push((s, e)); } // repeat
     }
     qs
 }
